@@ -171,6 +171,7 @@ static RunSpec derive_spec(const std::string& world, int variant, uint64_t run_s
   if (world == "c16") {
     s.maskA = variant == 0 ? MASK_ALL : masks[rc.below(5)];
     g.adjacent_slots = variant == 1;
+    g.q120 = true;  // ride-along: q120 entry points against lane-wise congruences (sim/q120ref.cpp)
     g.edge_products = true;
     g.life_ops = true;
     g.module_ops = true;
@@ -231,7 +232,8 @@ static RunSpec derive_spec(const std::string& world, int variant, uint64_t run_s
     g.min_calls = 50;
     g.max_calls = thorough ? 400 : 160;
     g.max_log2n = thorough ? 10 : 7;
-    g.big_n_pct = 0;
+    g.big_n_pct = 2;
+    g.max_big_log2n = 14;
   } else if (world == "c12") {
     s.maskA = masks[rc.below(5)];
     g.module_ops = true;
@@ -264,7 +266,15 @@ static RunSpec derive_spec(const std::string& world, int variant, uint64_t run_s
     }
     static const uint32_t wp[] = {50, 70, 85, 95};
     s.window_pct = wp[rc.below(4)];
-    if (rc.chance(thorough ? 5 : 3, 100)) {
+    if (rc.chance(3, 100)) {
+      // *_simple storm: a few tasks call one convenience function over a dozen dimensions, after the documented warm-up
+      g.simple_storm = true;
+      g.module_ops = g.table_ops = g.q120 = g.life_ops = false;
+      g.simple_ops = true;
+      g.ntasks = 3 + (int)rc.below(4);
+      g.min_calls = 6;
+      g.max_calls = 10;
+    } else if (rc.chance(thorough ? 5 : 3, 100)) {
       // large-dimension world: thresholds such as N >= 4096 / 8192 are only crossed here
       g.large_world = true;
       g.ntasks = 2 + (int)rc.below(3);
